@@ -90,7 +90,10 @@ _iov("C20", "A cloned or taken OwningIovec is an independent snapshot",
       "Woodpile.Props.C20.take_moves_all",
       "Woodpile.Props.C20.take_keeps_backfill",
       "Woodpile.Props.C20.frame_struct",
-      "Woodpile.Props.C20.frame_valid"],
+      "Woodpile.Props.C20.frame_valid",
+      "Woodpile.Props.C20.frame_heap",
+      "Woodpile.Props.C20.clone_independent_nonfill",
+      "Woodpile.Props.C20.clone_independent_backfill_partial"],
      ["Woodpile.Props.C20"], ["C20"], ["A", "R"],
      "Kernel-checked frame theorems on the multi-object world model; correspondence over histories with clone/take and interleaved suffixes on both sides; "
      "per-object shadow oracle checked on every object after every operation.")
